@@ -149,6 +149,9 @@ impl<T: Lin + Send + 'static, O: Operator<Out = T>> Operator for Probe<T, O> {
         });
         if kind <= K_TS {
             self.data_seen += 1;
+            // a data element moving through an operator chain is progress (a job that is still
+            // producing results when the step budget runs out is a long run, not a hang)
+            simrt::rt::progress();
         }
         if crash {
             simrt::rt::fired(simrt::Fk::UserPanic);
